@@ -247,6 +247,11 @@ func runPath(cfg *config, path []uint16) (uint64, explore.Status) {
 	w.con.M.Focus()
 	w.con.M.Draw(hw)
 	h.Vx.Render()
+	// the host's next frame, with nothing new from the child in between: the usual Clear / Draw / Render loop
+	hw.Clear()
+	h.Vx.HideCursor()
+	w.con.M.Draw(hw)
+	h.Vx.Render()
 	var mm *screenmodel.Mismatch
 	var ub []string
 	h.Con.With(func(t *refterm.Terminal) {
@@ -405,9 +410,9 @@ func main() {
 	}
 	r.Finish(explore.Coverage{
 		States: states, Transitions: trans + r.Get("accessor_checks"), Traces: trans, Evaluations: trans,
-		Rule:       "explicit-state BFS over (guest Vaxis, real term.Model, host Vaxis + reference terminal): the guest's bytes go through the real ansi.Parser into the emulator, whose replies are the guest's input (so the guest runs under the capability set the emulator advertises); a transition is one frame (optional Clear, one SetCell from a 14-cell alphabet incl. ZWJ, flag, VS16, zero-width, all attributes, hyperlink, RGB background, styled+coloured underline; or a cursor request; Render or Refresh); after the last frame of every path the emulator's grid/cursor and, after Model.Draw into a host window of the same size and Render, the host terminal must equal the application's record (colours/underlines after the fallback the advertised capabilities imply); plus the start-up accessor table",
-		Exhaustive: exhaustive,
-		Bounds:     bounds,
+		Rule:        "explicit-state BFS over (guest Vaxis, real term.Model, host Vaxis + reference terminal): the guest's bytes go through the real ansi.Parser into the emulator, whose replies are the guest's input (so the guest runs under the capability set the emulator advertises); a transition is one frame (optional Clear, one SetCell from a 14-cell alphabet incl. ZWJ, flag, VS16, zero-width, all attributes, hyperlink, RGB background, styled+coloured underline; or a cursor request; Render or Refresh); after the last frame of every path the emulator's grid/cursor and, after Model.Draw into a host window of the same size and Render (twice: the second host frame follows without new output from the guest), the host terminal must equal the application's record (colours/underlines after the fallback the advertised capabilities imply); plus the start-up accessor table",
+		Exhaustive:  exhaustive,
+		Bounds:      bounds,
 		Assumptions: []string{"width tables as in C01", "a write of the guest is delivered to the emulator's parser in one read (frames are far below bufio's 4096 bytes)"},
 	})
 }
